@@ -197,6 +197,15 @@ def run_case(emit, cid, cs, rng, sample):
             measurable = bool(np.all(L > 0)) and all(case.ref_pen.admissible_step(1.0 / L[j], j) for j in range(len(L)))
         except Exception:
             measurable = False
+    if measurable and case.strategy == "fixpoint":
+        # a prox-gradient residual divides by the curvature of its unit: where that curvature underflows (saturated
+        # logistic on separable data: Hessian ~ 1e-30) or is tiny, solver and reference compare two noise amplifications
+        try:
+            Ls = case.fixpoint_steps(w)
+            if Ls is not None and (np.any(Ls <= 0) or float(np.min(Ls)) < 1e-6 * max(1.0, float(np.max(Ls)))):
+                measurable = False
+        except Exception:
+            measurable = False
     if stop <= tol and case.solver_name != "PDCD_WS" and np.all(np.isfinite(w)) and measurable:
         cert, per, ib = case.certificate(w)
         cu = float(np.max(per)) if per is not None and len(per) else cert
